@@ -318,8 +318,8 @@ def repeat_first(ctx, inter, law, law_name, compliance, first):
     o1, (t, q, u, ld, lac), where = first
     o2, _ = element_outputs(inter, law, law_name, compliance, t, q, u, ld, lac)
     for k in o1:
-        if k == "l" and where["on"] == "Revolute":
-            continue        # the joint angle is history dependent by design (full-turn counter): C25
+        if where["on"] == "Revolute" and k in ("l", "la", "h", "hq", "c", "qd"):
+            continue        # the joint angle is history dependent by design (full-turn counter, C25), and so is everything that contains its value
         if not np.array_equal(np.asarray(o1[k]), np.asarray(o2[k])):
             ctx.violation(f"{law_name}{'(c)' if compliance else ''}:{where['on']}:history:{k}",
                           f"{k} evaluated again at the first state (after evaluations at other states) differs from its first evaluation "
